@@ -25,11 +25,14 @@ SL = np.s_
 BASES = {
     'v4': dict(state=lambda: np.array([1., 2., 3., 4.]),
                slices={'a': [SL[1:3]], 'b': [SL[::2]], 'f': [np.array([0, 2])], 'i': [2], 'n': [SL[1:4], SL[0:2]],
-                       'r': [SL[::-2]]}),
+                       'r': [SL[::-2]],
+                       # slices that select ALL entries of the base in another order
+                       'R': [SL[::-1]], 'P': [np.array([2, 0, 3, 1])]}),
     'm23': dict(state=lambda: np.arange(1., 7.).reshape(2, 3),
                 slices={'r': [SL[0, :]], 'c': [SL[:, 1:]], 't': [(slice(0, 2), slice(0, 2))],
                         'f': [(np.array([0, 1]), np.array([2, 0]))], 'e': [SL[1, 2]], 'n': [SL[:, 1:], SL[1, :]],
-                        'x': [(slice(None), np.array([2, 0]))], 'y': [(np.array([1, 0]), slice(1, 3))]}),
+                        'x': [(slice(None), np.array([2, 0]))], 'y': [(np.array([1, 0]), slice(1, 3))],
+                        'X': [(slice(None), slice(None, None, -1))]}),
     'c3': dict(state=lambda: np.array([1 + 1j, 2 - 1j, 0.5j]),
                slices={'a': [SL[0:2]], 'f': [np.array([2, 0])], 'i': [1]}),
     't222': dict(state=lambda: np.arange(1., 9.).reshape(2, 2, 2),
@@ -62,7 +65,7 @@ def value(kind, what, shape, seed, cplx):
     return v * unit
 
 
-REDUCED = {'v4': ['a', 'f', 'n'], 'm23': ['t', 'f', 'x'], 'c3': ['a', 'f'], 't222': ['b', 'x'], 's': [], 'dy': [], 'z0': [],
+REDUCED = {'v4': ['a', 'f', 'n', 'R'], 'm23': ['t', 'f', 'x', 'X'], 'c3': ['a', 'f'], 't222': ['b', 'x'], 's': [], 'dy': [], 'z0': [],
            'v4t': ['a', 'f', 'n'], 'm23t': ['t', 'f', 'x']}
 
 
